@@ -89,6 +89,20 @@ def run(tier, replay=None):
         add("a" + "[0]" * depth, "nesting ladder", nolex=depth > 1000)
         add("1" + " + 1" * depth, "nesting ladder", nolex=depth > 1000)
         add("f(" * min(depth, 2000) + "1" + ")" * min(depth, 2000), "nesting ladder", nolex=True)
+    # statement ladders: every statement form that takes a body, nested in itself and in the others, one-line and braced, with and
+    # without else, valid and with an error in the innermost body (the parser's work must stay proportional to the input:
+    # the harness counts token fetches through the VerifNext hook)
+    heads = {"if": "if a", "while": "while a", "for": "for i <- a", "fn": "() ->", "assign": "x ="}
+    for depth in ([8, 24, 60] if tier == "quick" else [8, 24, 60, 200, 600]):
+        for h in heads.values():
+            add(" ".join(h for _ in range(depth)) + " 1", "statement ladder", nolex=True)
+            add(" ".join(h for _ in range(depth)) + " 1 +", "statement ladder", nolex=True)
+            add("".join(h + " {\n" for _ in range(depth)) + "1\n" + "}\n" * (depth - 1) + "}", "statement ladder", nolex=True)
+            add("".join(h + " {\n" for _ in range(depth)) + "1 )\n" + "}\n" * (depth - 1) + "}", "statement ladder", nolex=True)
+        mix = list(heads.values())
+        add(" ".join(mix[k % len(mix)] for k in range(depth)) + " 1", "statement ladder", nolex=True)
+        add(" ".join("if a" for _ in range(depth)) + " 1" + " else 2" * depth, "statement ladder", nolex=True)
+        add("".join("if a {\n" for _ in range(depth)) + "1\n" + "} else {\n2\n}\n" * (depth - 1) + "} else 2", "statement ladder", nolex=True)
     # random bytes (incl. invalid UTF-8 through surrogateescape is not JSON-able: use latin-1 range and replacement) and mutated programs
     alphabet = "01a bxyz+-*/=<>!&|#%~(){}[],:\"\;.\n\t$@'_AZ?^`£€\r\x7f\x01\x00\ufffd\udcff"
     alphabet = alphabet.replace("\udcff", "")
